@@ -79,7 +79,7 @@ func RunIngest(sc IngestScenario) (evs []Ev, inconclusive string) {
 			s.Stop()
 		}
 	}()
-	in.Log(Ev{"tr": sc.Tr, "e": "reset", "strategy": sc.Strategy, "data": sc.Data, "max": pc.BufferConfig.MaxBufferSize, "producers": sc.Producers, "rows": sc.Rows, "directed": b2i(sc.Directed || sc.SampleRace), "strict": b2i(sc.Stalled)})
+	in.Log(Ev{"tr": sc.Tr, "e": "reset", "strategy": sc.Strategy, "data": sc.Data, "max": pc.BufferConfig.MaxBufferSize, "producers": sc.Producers, "rows": sc.Rows, "directed": b2i(sc.Directed || sc.SampleRace), "strict": b2i(sc.Stalled), "empties": sc.Empties})
 	perturb := func() {
 		if !sc.Perturb {
 			return
